@@ -1949,7 +1949,9 @@ func (p *Parser) parseConditionVarOperator(expression *ast.OperatorExpression) e
 				}
 				numOpenParens -= 1
 			}
-			parts = append(parts, p.tryReplaceWithConstant(p.curToken.Literal))
+			// A constant may expand to several tokens, which then need the same parentheses as if
+			// they had been written out.
+			parts = append(parts, strings.Split(p.tryReplaceWithConstant(p.curToken.Literal), " ")...)
 			p.nextToken()
 			if p.curToken.Type == token.EOF {
 				return NewParseError(valueToken, "missing ')' when evaluating 'value'")
